@@ -89,6 +89,9 @@ FAMILIES = {
     ],
     'C17': [
         {'family': 'reconnect', 'knobs': {}, 'quick': 400, 'thorough': 6000},
+        # the application keeps issuing requests while the reconnect is under way
+        {'family': 'reconnect', 'knobs': {'who': 'app', 'p_window': 1.0, 'p_fnf_then_request': 0.6, 'p_stale_fragments': 0.0, 'p_teardown_race': 0.0},
+         'quick': 300, 'thorough': 4000, 'first': 200000},
     ],
     'C20': [
         {'family': 'adapters', 'knobs': {'version': 'reactivex'}, 'quick': 300, 'thorough': 5000},
